@@ -650,6 +650,65 @@ pub(crate) fn h_cleanup_group_chain() {
     vrt_cover(true, "cleanup_group_chain_end");
 }
 
+/// FUNCTION chains f0 -> f1 -> ... (SUB_FUNCTION), used from one of several sites (FUNCTION_LIST of a MEASUREMENT /
+/// CHARACTERISTIC / AXIS_PTS / GROUP) at position `user` or not at all, the last function with / without content.
+/// After cleanup every FUNCTION_LIST / SUB_FUNCTION entry still names an existing FUNCTION.
+pub(crate) fn h_cleanup_function_chain() {
+    let n = 1 + vrt_choice(3);
+    let user = vrt_choice(n + 1);             // == n: nobody uses the chain
+    let site = vrt_choice(4);                 // 0 MEASUREMENT, 1 CHARACTERISTIC, 2 AXIS_PTS, 3 GROUP
+    let content = vrt_choice(2) == 1;         // the last function has a LOC_MEASUREMENT
+    let mut t = String::from("ASAP2_VERSION 1 71 /begin PROJECT p \"\" /begin MODULE m \"\"\n/begin RECORD_LAYOUT rl FNC_VALUES 1 UBYTE ROW_DIR DIRECT AXIS_PTS_X 2 UBYTE INDEX_INCR DIRECT /end RECORD_LAYOUT\n");
+    let mut fl = String::new();
+    if user < n {
+        fl.push_str(" /begin FUNCTION_LIST f");
+        fl.push((b'0' + user as u8) as char);
+        fl.push_str(" /end FUNCTION_LIST");
+    }
+    t.push_str("/begin MEASUREMENT ms \"\" UBYTE NO_COMPU_METHOD 0 0 0 255"); if site == 0 { t.push_str(&fl); } t.push_str(" /end MEASUREMENT\n");
+    t.push_str("/begin CHARACTERISTIC ch \"\" VALUE 0 rl 0 NO_COMPU_METHOD 0 255"); if site == 1 { t.push_str(&fl); } t.push_str(" /end CHARACTERISTIC\n");
+    t.push_str("/begin AXIS_PTS ap \"\" 0 NO_INPUT_QUANTITY rl 0 NO_COMPU_METHOD 2 0 255"); if site == 2 { t.push_str(&fl); } t.push_str(" /end AXIS_PTS\n");
+    t.push_str("/begin GROUP g \"\" ROOT /begin REF_MEASUREMENT ms /end REF_MEASUREMENT"); if site == 3 { t.push_str(&fl); } t.push_str(" /end GROUP\n");
+    for i in 0..n {
+        t.push_str("/begin FUNCTION f");
+        t.push((b'0' + i as u8) as char);
+        t.push_str(" \"\"");
+        if i + 1 < n {
+            t.push_str(" /begin SUB_FUNCTION f");
+            t.push((b'0' + i as u8 + 1) as char);
+            t.push_str(" /end SUB_FUNCTION");
+        } else if content {
+            t.push_str(" /begin LOC_MEASUREMENT ms /end LOC_MEASUREMENT");
+        }
+        t.push_str(" /end FUNCTION\n");
+    }
+    t.push_str("/end MODULE /end PROJECT");
+    let (mut file, _) = load_from_string(&t, None, true).unwrap();
+    vrt_check(xref_errors(&file) == 0, "C10 (harness) the function chain document is consistent");
+    file.cleanup();
+    {
+        let m = &file.project.module[0];
+        vrt_check(xref_errors(&file) == 0, "C10 a file whose references all resolve still resolves after cleanup (FUNCTION chains)");
+        for f in m.function.iter() {
+            if let Some(sf) = &f.sub_function {
+                for name in sf.identifier_list.iter() { vrt_check(m.function.contains_key(name), "C10 every SUB_FUNCTION entry still names an existing FUNCTION after cleanup"); }
+            }
+        }
+        if user < n {
+            let mut name = String::from("f");
+            name.push((b'0' + user as u8) as char);
+            vrt_check(m.function.contains_key(&name), "C10 cleanup never removes a FUNCTION that a FUNCTION_LIST still refers to");
+        }
+        if content { vrt_check(m.function.len() == n as usize, "C10 a FUNCTION chain that ends in a function with members is kept completely"); }
+        else if user == n { vrt_check(m.function.len() == 0, "C10 a chain of FUNCTIONs without members and without a user is removed"); }
+        vrt_check(m.measurement.len() == 1 && m.characteristic.len() == 1 && m.axis_pts.len() == 1 && m.group.len() == 1, "C10 cleanup never removes measurement and calibration objects or used groups");
+    }
+    let once = file.clone();
+    file.cleanup();
+    vrt_check(file == once, "C10 running cleanup twice gives the same result as running it once");
+    vrt_cover(true, "cleanup_function_chain_end");
+}
+
 // ------------------------------------------------------------------ C08 / C09: merge
 
 /// template expansion: `@name` -> name + sfx (a global element name), `~` -> lid (content marker / long identifier)
